@@ -205,6 +205,10 @@ static void json_escape(FILE* f, const char* s) {
   }
 }
 
+// a quarter of the cases (chosen by the descriptor hash, hence replayable) place EVERY guarded buffer on a 64-byte
+// boundary: the per-buffer misalignments rotate independently, so without this no case would ever see all of its
+// buffers aligned at once - the most common situation in real use, and the one an aligned fast path keys on
+int g_case_aligned;
 int case_begin(const char* key, const char* fmt, ...) {
   if (in_case) harness_fail("case_begin inside a case (%s)", cur_key);
   cur_idx++;
@@ -225,6 +229,7 @@ int case_begin(const char* key, const char* fmt, ...) {
     return 0;
   }
   cur_hash = h;
+  g_case_aligned = ((h >> 9) & 3) == 0;
   rng_seed(&cur_rng, G.seed ^ hash_bytes(G.prop, strlen(G.prop), 3), h);
   cur_note[0] = 0;
   cur_viols = 0;
@@ -244,6 +249,7 @@ void sample(const char* fmt, ...) {
 void case_end(int nontrivial) {
   if (!in_case) harness_fail("case_end outside a case");
   n_eval++;
+  if (g_case_aligned) cnt("cases_with_every_buffer_64B_aligned", 1);
   if (nontrivial) hset_add(&nontrivial_cases, cur_hash);
   cntf("key:%s", 1, cur_key);
   // write a sample record for the first case of each key (bounded)
@@ -400,6 +406,10 @@ void* gb_alloc(gbuf_t* g, size_t n, size_t align, size_t mis, size_t guard) {
   if (guard < 4096) guard = 4096;
   if (guard > (1u << 20)) guard = 1u << 20;
   if (align < 8) align = 8;
+  if (g_case_aligned) {
+    mis = 0;
+    if (align < 64) align = 64;
+  }
   g->guard = guard;
   g->n = n;
   g->total = guard + align + mis + n + guard + 64;
